@@ -84,3 +84,18 @@ def run_engine(ctx, tag, modes, n_quick, n_thorough, classes, hashseeds=("0",), 
                    "non-trivial = at least two distinct end offsets, or a rejection before the end of the input; "
                    "distinct = distinct (grammar, rule, input, offset)")
     return cov, violations
+
+
+def fold_sweep(ctx):
+    """exhaustive literal-folding correspondence over all 1 114 112 code points (tools/fold_x.py)"""
+    out = os.path.join(C.WORK, f"fold_{ctx['pid']}.json")
+    rc, so, se = C.sh([C.PY, os.path.join(C.VERIF, "tools", "fold_x.py"), "--out", out], env=C.env_for_impl("0"), timeout=3000)
+    if rc != 0:
+        return {"status": "harness error"}, [{"what": "fold sweep failed: " + (so + se)[-300:], "identity": "harness-error",
+                                              "replay_payload": {"error": (so + se)[-2000:]}}]
+    d = json.load(open(out))
+    viol = [{"what": "literal case folding: " + json.dumps(m), "identity": "fold:" + json.dumps(m, sort_keys=True)[:200],
+             "replay_payload": dict(m, property=ctx["pid"],
+                                    note="Literal(chr(literal)) [case-insensitive] .lparse(chr(input), 0) vs coq/Base.v fold_cp")}
+            for m in d["mismatches"]]
+    return {"evaluations": d["evaluations"], "code_points": d["code_points"], "exhaustive": True, "wall_s": d["wall_s"]}, viol
